@@ -73,8 +73,43 @@ def ref_meta(n, info, memo):
     return memo[id(n)]
 
 
+def ref_meta_expansion(n, info, memo):
+    """The same traversal under expansion_depthing=True, for grammars whose fields are all class-typed:
+    every step from a field's declared abstract type down the class hierarchy to the production that
+    was actually used is one more expansion (counted as a node and as a level); a field-less
+    production counts as one level."""
+    if id(n) in memo:
+        return memo[id(n)]
+    name = type(n).__name__
+    fs = info.fields[name]
+    cnt, wt = 1, 0
+    levels = []
+    types = {name: [id(n)]}
+    has_fieldless = not fs
+    for fn, ft in fs:
+        k = getattr(n, fn)
+        kname = type(k).__name__
+        hops, c = 0, kname
+        if ft[0] == "ref" and info.is_abstract(ft[1]):
+            while c != ft[1]:
+                c = info.parent[c]
+                hops += 1
+        c_, d_, w_, t_, _, hf, _ = ref_meta_expansion(k, info, memo)
+        cnt += hops + c_
+        wt += w_
+        levels.append(d_ + hops + 1)
+        has_fieldless = has_fieldless or hf
+        for tn, ids in t_.items():
+            types.setdefault(tn, []).extend(ids)
+    dist = max([1] + levels)
+    wt += dist
+    memo[id(n)] = (cnt, dist, wt, types, False, has_fieldless, False)
+    return memo[id(n)]
+
+
 class Metadata(Facet):
     name = "node_metadata"
+    ref = staticmethod(ref_meta)
     flags = Flags(dependent=False, user_mh=True, max_concrete=6, tuples=True, unions=True)
     reps = ("tree", "ge", "sge", "dsge")
 
@@ -115,7 +150,7 @@ class Metadata(Facet):
             pc = canon(p, info)
             any_list = False
             for n in ns:
-                cnt, dist, wt, types, has_list, has_fieldless, has_tup = ref_meta(n, info, memo)
+                cnt, dist, wt, types, has_list, has_fieldless, has_tup = self.ref(n, info, memo)
                 any_list = any_list or has_list
                 cause = "subtree-with-list" if has_list else ("subtree-with-tuple" if has_tup else ("subtree-with-fieldless-leaf" if has_fieldless else "general"))
                 d = getattr(n, "__dict__", {})
@@ -191,4 +226,18 @@ class MetadataConcreteStart(Metadata):
         return st.builds(lambda c, x: {**c, "ops": [["create"], ["create"], ["create"]] + x}, base, xs)
 
 
-FACETS = [Metadata(), MetadataConcreteStart()]
+class MetadataExpansion(Metadata):
+    """expansion_depthing=True on grammars whose fields are all class-typed, with abstract hierarchies
+    up to four levels deep: every abstract-to-production step below a field counts."""
+
+    name = "node_metadata_expansion_mode"
+    ref = staticmethod(ref_meta_expansion)
+    flags = Flags(class_fields_only=True, expansion=True, lists=False, bare_lists=False, tuples=False, unions=False, refined=False, dependent=False, user_mh=False,
+                  max_abstract=5, max_concrete=7, nested_abstract=True, self_refs=False, plain_classes=True)
+    reps = ("tree", "ge", "dsge")
+
+    def budget(self, tier):
+        return (60, 4) if tier == "quick" else (300, 8)
+
+
+FACETS = [Metadata(), MetadataConcreteStart(), MetadataExpansion()]
